@@ -2,6 +2,7 @@
    The subset of Rust it accepts and the meaning it gives to it are stated in that file. *)
 From Coq Require Import String.
 From Amq Require Import Lib.Base Lib.RsVal.
+Open Scope string_scope.
 Open Scope N_scope.
 
 Section Gen.
